@@ -73,6 +73,11 @@ const (
 
 // World is the complete simulated process environment.
 type World struct {
+	// Mtime is the logical modification time of every file (seconds): the
+	// grammar is the oldest, files lying around from earlier runs are newer, and
+	// whatever this run writes is newer still.
+	Mtime    map[string]int64
+	mtick    int64
 	Files    map[string][]byte
 	Dirs     map[string]bool
 	StdinBuf []byte
@@ -98,9 +103,13 @@ const DevNull = "/dev/null"
 
 // Reset installs a fresh world. Called by the driver before every simulated run.
 func Reset(args []string, stdin []byte, files map[string][]byte, dirs []string, f Faults) *World {
-	nw := &World{Files: map[string][]byte{}, Dirs: map[string]bool{}, StdinBuf: stdin, F: f}
+	nw := &World{Files: map[string][]byte{}, Dirs: map[string]bool{}, StdinBuf: stdin, F: f, Mtime: map[string]int64{}, mtick: 3000}
 	for k, v := range files {
 		nw.Files[k] = append([]byte(nil), v...)
+		nw.Mtime[k] = 2000 // left behind by an earlier run ...
+		if strings.HasSuffix(k, ".peg") {
+			nw.Mtime[k] = 1000 // ... of a grammar that has not changed since
+		}
 	}
 	for _, d := range dirs {
 		nw.Dirs[d] = true
@@ -197,6 +206,7 @@ func Create(name string) (*File, error) {
 		return nil, &fs.PathError{Op: "open", Path: name, Err: syscall.ENOENT}
 	}
 	w.Files[name] = []byte{}
+	touch(name)
 	w.OutFile = name
 	return &File{name: name, role: roleOut}, nil
 }
@@ -237,6 +247,9 @@ func OpenFile(name string, flag int, perm fs.FileMode) (*File, error) {
 	w.Files[name] = f.data
 	if f.data == nil {
 		w.Files[name] = []byte{}
+	}
+	if !exists || flag&syscall.O_TRUNC != 0 {
+		touch(name)
 	}
 	w.OutFile = name
 	return f, nil
@@ -291,9 +304,19 @@ func next(s *uint64) uint64 {
 // existing output, creating the output directory).
 
 type fileInfo struct {
-	name string
-	size int64
-	dir  bool
+	name  string
+	size  int64
+	dir   bool
+	mtime int64
+}
+
+// touch records that a file was written now.
+func touch(name string) {
+	if w.Mtime == nil {
+		w.Mtime = map[string]int64{}
+	}
+	w.mtick++
+	w.Mtime[name] = w.mtick
 }
 
 func (i fileInfo) Name() string { return i.name }
@@ -304,7 +327,7 @@ func (i fileInfo) Mode() fs.FileMode {
 	}
 	return 0o644
 }
-func (i fileInfo) ModTime() time.Time { return time.Unix(0, 0) }
+func (i fileInfo) ModTime() time.Time { return time.Unix(i.mtime, 0) }
 func (i fileInfo) IsDir() bool        { return i.dir }
 func (i fileInfo) Sys() any           { return nil }
 
@@ -314,7 +337,7 @@ func Stat(name string) (fs.FileInfo, error) {
 		return fileInfo{name: name, dir: true}, nil
 	}
 	if b, ok := w.Files[name]; ok {
-		return fileInfo{name: name, size: int64(len(b))}, nil
+		return fileInfo{name: name, size: int64(len(b)), mtime: w.Mtime[name]}, nil
 	}
 	return nil, &fs.PathError{Op: "stat", Path: name, Err: syscall.ENOENT}
 }
@@ -405,7 +428,7 @@ func Chmod(name string, _ fs.FileMode) error {
 
 // Stat mirrors (*os.File).Stat.
 func (f *File) Stat() (fs.FileInfo, error) {
-	return fileInfo{name: f.name, size: int64(len(f.data)), dir: f.isDir}, nil
+	return fileInfo{name: f.name, size: int64(len(f.data)), dir: f.isDir, mtime: w.Mtime[f.name]}, nil
 }
 
 // Chmod mirrors (*os.File).Chmod.
